@@ -34,6 +34,8 @@ def N(x):
         return symx.Sym(symx._real(x.e), symx.DEC)
     if isinstance(x, symx.SymBool) or isinstance(x, bool):
         return x
+    if hasattr(x, "item") and not isinstance(x, Decimal):
+        x = x.item()  # numpy scalar -> Python number
     return fractions.Fraction(x)
 
 
@@ -697,6 +699,21 @@ def _hp(fn):
         return fn()
 
 
+def v3_amounts_per_liquidity(lower_tick, upper_tick, price, t0q, d0, d1):
+    """(token0, token1) held per unit of liquidity at pool price `price` (quote per base), in whole tokens -- closed forms of the
+    v3 whitepaper, computed with 80-digit Decimals (not calling the repo's liquidity math)"""
+
+    def calc():
+        one = D("1.0001")
+        sa = (one ** D(lower_tick)).sqrt()
+        sb = (one ** D(upper_tick)).sqrt()
+        ratio = (1 / price if t0q else price) * D(10) ** (d1 - d0)  # token1 per token0, in on-chain units
+        sp = min(max(ratio.sqrt(), sa), sb)
+        return ((sb - sp) / (sb * sp) / D(10) ** d0, (sp - sa) / D(10) ** d1)
+
+    return tuple(N(x) for x in _hp(calc))
+
+
 class UniNV:
     """one real UniLpMarket (either token order) + Broker; account quote = the pool's quote token, or USD with a symbolic
     price of the pool's quote token (market quote differs from account quote)"""
@@ -745,16 +762,7 @@ class UniNV:
         if key in self._consts:
             return self._consts[key]
         d0, d1 = self.m.pool_info.token0.decimal, self.m.pool_info.token1.decimal
-
-        def calc():
-            one = D("1.0001")
-            sa = (one ** D(key.lower_tick)).sqrt()
-            sb = (one ** D(key.upper_tick)).sqrt()
-            ratio = (1 / self.price if self.s.t0q else self.price) * D(10) ** (d1 - d0)  # token1 per token0, in on-chain units
-            sp = min(max(ratio.sqrt(), sa), sb)
-            return ((sb - sp) / (sb * sp) / D(10) ** d0, (sp - sa) / D(10) ** d1)
-
-        self._consts[key] = tuple(N(x) for x in _hp(calc))
+        self._consts[key] = v3_amounts_per_liquidity(key.lower_tick, key.upper_tick, self.price, self.s.t0q, d0, d1)
         return self._consts[key]
 
     def prices(self):
